@@ -35,7 +35,9 @@ func runC06(c *Ctx) {
 	// the truthiness function: what `!!` calls
 	bb := parms[c.SK("SK_ExclamationExclamation")]
 	var T *ssa.Function
-	if bb.Handler != nil {
+	if bb.Handler != nil && bb.Handler.Signature.Results().Len() == 1 && isBoolType(bb.Handler.Signature.Results().At(0).Type()) {
+		T = bb.Handler // `!!` asks the truthiness function directly in the operator dispatch
+	} else if bb.Handler != nil {
 		instrs(bb.Handler, func(b *ssa.BasicBlock, i int, in ssa.Instruction) {
 			if call, ok := in.(*ssa.Call); ok {
 				if cal := calleeOf(call); cal != nil && c.inModule(cal) && cal.Signature.Results().Len() == 1 && isBoolType(cal.Signature.Results().At(0).Type()) {
@@ -235,6 +237,10 @@ func c06Single(c *Ctx, T *ssa.Function, barms, parms map[int64]OpArm, condH *ssa
 	for _, u := range users {
 		if u.h == nil {
 			c.R.Check(rule, "user:"+u.name, u.pos, false, "no handler for "+u.name)
+			continue
+		}
+		if u.h == T {
+			c.R.Add(rule, "user:"+u.name, u.pos, OK, "") // the operator dispatch asks the truthiness function itself
 			continue
 		}
 		calls := callsTo(u.h, T)
@@ -454,7 +460,41 @@ func c06Not(c *Ctx, T *ssa.Function, parms map[int64]OpArm) {
 	c.R.Check(rule, "null", pos, ok && got, "`!null` must be true")
 	// `!!` returns the truthiness itself
 	h2 := parms[c.SK("SK_ExclamationExclamation")].Handler
-	if h2 != nil {
+	if h2 == T && h2 != nil {
+		// written out in the operator dispatch: `return toBool(v), nil`
+		arm2 := parms[c.SK("SK_ExclamationExclamation")]
+		okRet := arm2.Call != nil && arm2.Fold != nil && len(arm2.Fold.Returns) > 0
+		if okRet {
+			n := 0
+			for _, ret := range arm2.Fold.Returns {
+				if len(ret.Results) == 2 && !isNilConst(ret.Results[1]) {
+					continue // the operand's own error
+				}
+				n++
+				if len(ret.Results) != 2 || stripIface(ret.Results[0]) != ssa.Value(arm2.Call) {
+					okRet = false
+				}
+			}
+			if n == 0 {
+				okRet = false
+			}
+		}
+		for _, tv := range []bool{true, false} {
+			c.R.Check(rule, fmt.Sprintf("!!:truthy=%v", tv), arm2.Pos, okRet, "`!!x` must be the truthiness of x")
+		}
+		okArg := false
+		if arm2.Call != nil {
+			disp := arm2.Call.Parent()
+			ops := operandParams(disp)
+			a := stripIface(arm2.Call.Call.Args[len(arm2.Call.Call.Args)-1])
+			for _, rt := range plainOrigins.Roots(a) {
+				if rt.Kind == "call" && c.inModule(rt.Fn) || rt.Kind == "param" && len(ops) > 0 && rt.V == ssa.Value(ops[0]) {
+					okArg = true // the evaluated operand
+				}
+			}
+		}
+		c.R.Check(rule, "!!:operand", arm2.Pos, okArg, "`!!` must apply truthiness to its operand")
+	} else if h2 != nil {
 		for _, tv := range []bool{true, false} {
 			r := c.foldWith(h2, 1, pinCallFn(T, constant.MakeBool(tv), nil))
 			got, ok := boxedBoolResult(r, 0)
